@@ -72,7 +72,7 @@ Definition same_outcome (a b : mres value) : Prop :=
   match a, b with
   | MOk v1 s1, MOk v2 s2 => v1 = v2 /\ rest s1 = rest s2 /\ off s1 = off s2
   | MErr _, MErr _ => True
-  | MPanic _, MPanic _ => True
+  | MPanic p1, MPanic p2 => p1 = p2      (* not a runtime panic: the model's marker for code that rustc would reject *)
   | MFuel, _ | _, MFuel => True
   | _, _ => False
   end.
@@ -91,7 +91,7 @@ Proof.
   pose proof (memoize_transparent ustate scfg tcfg fcfg rcfg hk g input H1 H2 H3 n m rule_name u u') as W.
   destruct (fst (m_parse ustate scfg tcfg fcfg rcfg hk g n rule_name input u)) as [v1 s1|e1|p1|];
     destruct (fst (m_parse ustate scfg tcfg fcfg rcfg hk (strip g) m rule_name input u')) as [v2 s2|e2|p2|];
-    cbn in *; try exact I; try contradiction.
+    cbn in *; try exact I; try contradiction; try (match goal with |- @eq panic_site _ _ => assumption end).
   destruct W as [-> [R1 R2]]. auto.
 Qed.
 Print Assumptions C05_transparent.
